@@ -78,7 +78,7 @@ def check_case(case, workdir=None):
             exe = pr.build_driver()
         except farm.BuildError as exc:
             c06.fail_build(exc, 'build: generated shell')
-        clients = ['A', 'B', 'C'][:case.get('clients', 2)] if info.mc else []
+        clients = gen_cfg.client_names(case.get('naming'), case.get('clients', 2)) if info.mc else []
         mixed = len(set(sem.values())) > 1 or bool(info.mc)
         done = []
         # everything bound
@@ -138,7 +138,9 @@ def strata():
 
 
 def with_clients(base):
-    return st.tuples(base, st.integers(0, 3)).map(lambda t: {**t[0], 'clients': t[1]})
+    return st.tuples(base, st.integers(0, 3), st.sampled_from(
+        ['plain', 'prefix-desc', 'prefix-asc', 'reverse'])).map(
+            lambda t: {**t[0], 'clients': t[1], 'naming': t[2]})
 
 
 def run(ctx):
@@ -150,15 +152,16 @@ def run(ctx):
         return
     from vf.draw import draw_stratified
     from vf.runner import case_hash, load_regress
-    cases = load_regress(ctx.prop, name) + draw_stratified(strata(), 16 if ctx.quick else 250,
-                                                           ctx.seed, wrap=with_clients)
+    cases = load_regress(ctx.prop, name) + gen_cfg.alternate_histories(
+        draw_stratified(strata(), 16 if ctx.quick else 250, ctx.seed, wrap=with_clients),
+        ('semantics', 'edited'))
     done = {}
 
     def check(case, workdir):
         done[id(case)] = check_case(case, workdir)
     c06.run_cases(ctx, name, cases, check)
     for case in cases:
-        mh = case_hash([case['sm']['model'], case['spec'], case.get('clients')])
+        mh = case_hash([case['sm']['model'], case['spec'], case.get('clients'), case.get('naming')])
         for kind, nt in done.get(id(case)) or []:
             ctx.record([mh, kind], nt and kind != 'all-bound', [kind.split(':')[0]])
         for lab in c06.labels(case):
